@@ -99,6 +99,15 @@ CHECKS = {
         note="4 (9) concrete instances, threshold/alpha symbolic; solver tolerance and the nonlinear equations are not modelled "
              "(weakening); outcomes on which glbfloor raises instead of returning are outside the property.",
         design="5/C10"),
+    'C19': dict(
+        text="For every producer in reach - Die.write_yaml, Allocation.write_yaml (before/after refine and griddify), every netgen "
+             "topology at every size where it is defined (n<=6, grids <=3x3, h-tree <=2 levels), dump_yaml_namededges, "
+             "rect_io.solution_to_netlist / get_netlist and the legaliser's get_netlist - the real writer runs on a design with "
+             "symbolic numbers, the real reader loads the result, and z3 proves field-by-field equality with what was written, "
+             "that producing the document does not alter the source object and that producing it twice gives identical documents.",
+        note="write_yaml is the identity on trees symbolically (real YAML text in every replay); string-built YAML is parsed by the "
+             "real ruamel parser with placeholder numerals; the FloorSet converter's numeric content is numpy-only and not decided.",
+        design="5/C19"),
     'C03': dict(
         text="Bounded symbolic model checking of the real create_initial_allocation (Die, Netlist, create_squares, fixed-rectangle "
              "detection, overlap ratios, Allocation constructor) with module rectangle positions/widths symbolic: z3 proves for every "
